@@ -205,4 +205,36 @@ def srun (s : Srv) (ops : List SOp) : Srv × List (SOp × SOut) :=
     let r := sstep acc.1 op
     (r.1, acc.2 ++ [(op, r.2)])) (s, [])
 
+/-! ### The SOCKS5 UDP relay loop of one association (`client/handle_remote/socks.rs`)
+
+`handle_udp_relay_header` receives one datagram on the association's relay socket and parses it with
+`v5::parse_udp_relay_header`; the relay loop forwards what it returns, goes on after `Ok(None)` and
+ends (taking the association and its TCP control connection down) on an error.  Which outcome each
+kind of parse failure has is regenerated from the source (`socksRelayDropsFragmented`,
+`socksRelayDropsMalformed`). -/
+
+inductive RelayIn where
+  | request (dst : Bytes) (port : Nat) (data : Bytes)   -- a well-formed RFC 1928 UDP request
+  | fragmented                                            -- FRAG ≠ 0
+  | malformed                                             -- anything else the parser rejects
+deriving DecidableEq, Repr
+
+inductive RelayOut where
+  | forwarded (dst : Bytes) (port : Nat) (data : Bytes)
+  | dropped
+  | ended
+deriving DecidableEq, Repr
+
+/-- One datagram at the relay; the state is "the association is alive". -/
+def relayStep (alive : Bool) (i : RelayIn) : Bool × RelayOut :=
+  if !alive then (false, .ended)
+  else match i with
+    | .request d p x => (true, .forwarded d p x)
+    | .fragmented => if socksRelayDropsFragmented then (true, .dropped) else (false, .ended)
+    | .malformed => if socksRelayDropsMalformed then (true, .dropped) else (false, .ended)
+
+def relayRun (alive : Bool) : List RelayIn → List RelayOut
+  | [] => []
+  | i :: rest => (relayStep alive i).2 :: relayRun (relayStep alive i).1 rest
+
 end Penguin.UdpMap
